@@ -3,9 +3,10 @@
 The translators must read MEANING, not spelling: comments are stripped, a function is located by
 name with brace matching, named constants are resolved, locals / private names are accepted as any
 identifier, and byte predicates are EVALUATED on 0..255 instead of being compared as text.
-A construct that cannot be read raises `Unreadable` (reported as `unreadable: ...`, soft, see
-TRANSLATE_FALLBACK in the plug-ins); a construct that is read and differs from the model is a hard
-failure decided by the caller.
+`Unreadable` is raised for anything that is not understood.  The plug-ins report it as soft
+(`unreadable: ...`, see their TRANSLATE_FALLBACK) ONLY when the construct cannot be found at all
+(`fn X not found`, or an exception marked `absent`) and the fact is observed by the driver; a
+construct that is found and differs, or is found and not understood, is a hard failure.
 """
 import re
 
